@@ -20,7 +20,16 @@ type C04Case struct {
 	Damages    []string        `json:"damages,omitempty"`
 }
 
-func init() { Register("C04", "lifecycle", checkC04) }
+func init() {
+	Register("C04", "lifecycle", checkC04)
+	RegisterShrinker("C04", "lifecycle", func(c C04Case) []C04Case {
+		var out []C04Case
+		for _, ds := range shrinkDirectives(c.Directives) {
+			out = append(out, C04Case{Directives: ds, Text: ref.RenderAll(ds), Damages: c.Damages})
+		}
+		return out
+	})
+}
 
 func checkC04(c C04Case) (o Outcome) {
 	verdict := ref.Lifecycle(c.Directives)
